@@ -410,10 +410,10 @@ type vtC18Pool struct {
 	cpuActive             bool
 }
 
-// shapes that run into the known findings of C18 (see coq/C18/Extract.v finding_sig 2 and 3) are
-// generated only when the findings are listed in known_findings.txt: a later pool with a nil
-// selector or prod thresholds in overlapping pools (sig 2), the anomaly gate in overlapping pools (sig 3)
-var vtC18KnownFindings = os.Getenv("VERIF_C18_FINDINGS") == "1"
+// shapes that run into the known findings of C18 (see coq/C18/Extract.v finding_sig 2 and 3, both listed in
+// known_findings.txt): a later pool with a nil selector or prod thresholds in overlapping pools (sig 2), the
+// anomaly gate in overlapping pools (sig 3). VERIF_C18_FINDINGS=0 keeps them out of the generated scope.
+var vtC18KnownFindings = os.Getenv("VERIF_C18_FINDINGS") != "0"
 
 func vtC18GenPool(r *rand.Rand, style string, dev, anom, prodOK bool) vtC18Pool {
 	var p vtC18Pool
